@@ -19,7 +19,27 @@ The property (this record is all you are told about what is being verified):
 """
 if kind == "s":
     kind_label = "s"
-if kind == "e":
+if kind == "f":
+    body = f"""
+TASK: produce 3 independent changes to the library source ({wt}/joblib/**, never the tests) that each BREAK this property while the package still imports and the existing test-suite still passes.
+
+Each change must
+ * be realistic: it must look like a plausible clean-up / optimisation / robustness fix / feature tweak that a maintainer could merge; no comment or name may give it away; 3-30 changed lines;
+ * keep every existing statement's PURPOSE recognisable: do not simply delete a statement or negate a test - change WHAT is computed, WHERE it is stored, WHEN it is evaluated or WHICH object it belongs to;
+ * need something SPECIFIC to manifest, not something ordinary use (or the existing tests) exposes at once;
+ * follow this round's style (one of each; where a style does not fit this property - e.g. no concurrency is involved - replace it by "a memoised / precomputed / default value that goes stale or is shared between things that must not share it"):
+     change 1: needs a particular INTERLEAVING or a CRASH / FAULT AT A PARTICULAR POINT: a check-then-act window, state read or published outside the critical section that used to cover it, a lock or `try` whose scope moved by one statement, two steps of a publication re-ordered, an exception raised by a callee between two statements that must both happen, a signal / worker death / full disk / vanished file at one precise moment;
+     change 2: needs a MULTI-STEP HISTORY: only the second (or third) use goes wrong - reuse of the same object after an error, after a timeout, after `clear()` / `reduce_size()` / re-configuration / resize / re-open / seek-back, state left over from the previous operation, an object pickled and un-pickled in between, an old on-disk layout read by new code;
+     change 3: needs an UNUSUAL INPUT or CONFIGURATION, and lives in a function that is NOT the most obvious one of the mechanism (a helper, a sibling class, a compatibility branch, another file of the anchors): an empty / singleton / exactly-at-the-boundary size, a rarely used parameter combination, a subclass or alternative backend, a name that collides with an internal one, negative or zero or huge numbers, an alias instead of a copy, a wrong sibling attribute (`_aborted`/`_aborting`, `offset`/`_pos`, `n_jobs`/`_n_jobs` ...).
+ Prefer sites that a reviewer focused on the central function of the mechanism would NOT look at.
+
+Deliver for change K (K=1,2,3) the directory {out}/{pid}-f-K/ containing
+ * patch.diff  - `git diff` taken in {wt}; must apply with `git apply` to the clean HEAD of the worktree;
+ * demo.py     - a small deterministic program: exit code 0 when the property holds (clean tree), non-zero when it is broken (with your change). Force the needed interleaving / crash / fault with monkeypatching, threading.Event, fault injection, subprocesses - no sleeping-and-hoping. Must finish in < 60 s. It is run as `cd <tree> && PYTHONPATH=<tree> /venv/bin/python demo.py` so it must import joblib from the current directory;
+ * notes.md    - first line: `{pid}-f-K: <one-line summary>`; then what you changed, why it breaks the property, what it needs to manifest, which test modules you ran and their result.
+Verify yourself, for each change: (1) demo exits 0 on the clean tree (save your diff with `git diff > file`, `git checkout -- .`, run, `git apply file` - never `git stash`), (2) demo exits non-zero with the change, (3) the test modules that exercise the files you touched pass with the change: `cd {wt} && timeout 1700 /venv/bin/python -m pytest -q -p no:cacheprovider --basetemp={wt}/.bt --timeout=600 joblib/test/test_<module>.py` (test_parallel.py takes a few minutes; run it only if you touched parallel.py / _parallel_backends.py / externals/loky). A change that makes an existing test fail is useless - rework it.
+Reset the worktree (`git checkout -- . && git clean -fdq -e .bt`) after each change. Work quickly: aim to be done within 35 minutes. Finish with a short report: the ids delivered, one line each."""
+elif kind == "e":
     body = f"""
 TASK: produce 3 independent changes to the library source ({wt}/joblib/**, never the tests) that each BREAK this property while the package still imports and the existing test-suite still passes.
 
